@@ -233,18 +233,22 @@ fn operators_vs_methods(rep: &Report, ellipsoids: &[String], tier: Tier, worst: 
             ("cassinis", Box::new(|p, h| e.cassinis_gravity_1930(p) - e.cassinis_height_correction(h, 2800.))),
         ];
         for (kind, m) in &grav {
-            match run_def(&mut ctx, &format!("gravity {kind} ellps={ellps}"), Fwd, &gr) {
-                Ok((_, out)) => {
-                    rep.eval(gr.len() as u64);
-                    for (p, o) in gr.iter().zip(out.iter()) {
-                        let want = m(p[0].to_radians(), p[1]);
-                        if ulps(o[0], want) > 4. {
-                            rep.violation(&format!("gravity operator differs from the ellipsoid method / {kind}"), json!({"ellps": ellps, "input": p, "operator": o, "method": want}));
-                            break;
+            // (with the zero-height flag the operator gives the value of the method on the ellipsoid, whatever the
+            // height element holds)
+            for flag in ["", " zero-height"] {
+                match run_def(&mut ctx, &format!("gravity {kind}{flag} ellps={ellps}"), Fwd, &gr) {
+                    Ok((_, out)) => {
+                        rep.eval(gr.len() as u64);
+                        for (p, o) in gr.iter().zip(out.iter()) {
+                            let want = m(p[0].to_radians(), if flag.is_empty() { p[1] } else { 0. });
+                            if ulps(o[0], want) > 4. {
+                                rep.violation(&format!("gravity operator differs from the ellipsoid method / {kind}{flag}"), json!({"ellps": ellps, "input": p, "operator": o, "method": want}));
+                                break;
+                            }
                         }
                     }
+                    Err(er) => rep.violation(&format!("gravity operator fails / {kind}{flag}"), json!({"ellps": ellps, "error": er})),
                 }
-                Err(er) => rep.violation(&format!("gravity operator fails / {kind}"), json!({"ellps": ellps, "error": er})),
             }
         }
         // geodesic operator vs methods
